@@ -49,8 +49,15 @@ class StructureReference(Field):
             newval = self._newclass(**extracted_values)
         except (TypeError, ValueError) as e:
             # the embedded class's own message names only ITS field ('StructureReference_0.b: ...'):
-            # put the path of this field in front
-            raise e.__class__(f"{self._name}: {e}") from e
+            # put the path of this field in front (a subclass whose constructor takes other arguments,
+            # e.g. json.JSONDecodeError, is re-raised as the documented base class)
+            base = e.__class__ if e.__class__ in (TypeError, ValueError) else (
+                ValueError if isinstance(e, ValueError) else TypeError)
+            try:
+                wrapped = e.__class__(f"{self._name}: {e}")
+            except Exception:  # pylint: disable=broad-except
+                wrapped = base(f"{self._name}: {e}")
+            raise wrapped from e
         super().__set__(instance, newval)
 
     def __serialize__(self, value):
